@@ -1,42 +1,50 @@
 (** C10  A master crash at any point never leaves an instance placed twice.
 
     Model: Master/Publish.v (publication = pure function to an ordered write list; store = the
-    /placement/<server>/<app> nodes).  The order of the loops of Master.reschedule / Master.init_schedule
-    and the changed-placement filter are read from master.py on every run (Gen.Tables c10_...).
+    /placement/<server>/<app> nodes).  The order of the loops of Master.reschedule / Master.init_schedule, the
+    changed-placement filter, the two-pass / content-reconciling form of init_schedule and the map update of
+    check_placement_integrity are read from master.py / loader.py on every run (Gen.Tables c10_...).
 
     PROVED AT FULL STRENGTH (all inputs, every crash point, no bound):
       C10_crash_no_double       every prefix of the write list of Master.reschedule leaves no instance under
                                 two servers, provided the store held nothing for a listed instance outside
                                 the server the cycle read as `before` ([within_before], the exact invariant)
-      C10_published_after_all_writes   the whole write list produces exactly the `after` column (C09's
-                                publication half) and touches nothing else
-      C10_integrity_on_clean_store, C10_integrity_sound, C10_integrity_delete_only,
+      C10_init_crash_no_double  every prefix of the write list of Master.init_schedule (all stale nodes of all
+                                servers deleted first, then the missing ones created / differing ones rewritten)
+                                leaves no instance under two servers, provided every node lies under a server of
+                                the model   [repaired by "fix: init_schedule removes all stale placement before it
+                                creates any"; the old failing input is C10_init_crash_regression and corpus/c10.json]
+      C10_published_after_all_writes   the whole write list of reschedule produces exactly the `after` column
+      C10_integrity_on_clean_store, C10_integrity_delete_only,
+      C10_integrity_repair_then_pass   unless the first pass hits its own "no repair possible" assertion, the check
+                                passes -- after removing the duplicates it found -- whenever every placed instance has
+                                an entry under the model's server   [repaired by "fix: check_placement_integrity keeps
+                                its app2server map in step with its own repair"; old failing input:
+                                C10_integrity_regression]
       C10_restart_drops_duplicates
-    REFUTED ON THE UNCHANGED TREE (model follows the code; vm_compute witnesses):
-      C10_init_crash_refuted        Master.init_schedule creates under one server before it deletes under
-                                    the next: a crash in between leaves a double entry
-      C10_integrity_refuted / C10_integrity_stale_map   check_placement_integrity repairs a double entry and
-                                    then fails its own assert (stale app2server)
-      C10_stale_entry_refuted       [within_before] is necessary: an entry left behind by a handler that
-                                    un-places an instance without touching the store (Loader.remove_server)
-                                    becomes a double entry at the next publication
-    PARTIAL:
-      C10_init_crash_partial        init_schedule is crash safe when the start-up cycle moved nothing
-    ONLY ORACLE + CORRESPONDENCE (harness/props/c10.py, E-master): that [within_before] holds between cycles
-    for the real handlers, and that the restarted master (load_model; init_schedule;
-    check_placement_integrity) completes on every cut. *)
+    REFUTED ON THE CURRENT TREE (known finding, model follows the code):
+      C10_stale_entry_refuted   [within_before] is necessary: an entry left behind under a server whose record was
+                                deleted (masterapi.delete_server racing with a cycle) becomes a double entry at the
+                                next publication
+    ONLY ORACLE + CORRESPONDENCE (harness/props/c10.py, E-master): that [within_before] / "every node under a server
+    of the model" hold between cycles for the real handlers, and that the restarted master (load_model;
+    init_schedule; check_placement_integrity) completes on every cut. *)
 From Coq Require Import ZArith List Bool.
 From TM Require Import Master.Publish Master.PublishP Gen.Tables.
 Import ListNotations.
 Open Scope Z_scope.
 
-Definition c10_cfg : cfg := cfg_of_tables c10_reschedule_phases c10_changed_filter c10_init_phases.
+Definition c10_cfg : cfg :=
+  cfg_of_tables c10_reschedule_phases c10_changed_filter c10_init_phases c10_init_flags c10_integrity_flags.
 
-(** the source has the shape the proofs are about: deletions, then creations, then _unschedule_evicted, then
-    _save_placement; both comparisons in the filter; init_schedule deletes then creates per server *)
+(** the source has the shape the proofs are about: reschedule = deletions, then creations, then _unschedule_evicted,
+    then _save_placement, both comparisons in the filter; init_schedule = one loop over all servers deleting, a second
+    one creating and reconciling content; check_placement_integrity updates app2server after a repair *)
 Theorem C10_source_shape : cfg_canonical c10_cfg = true.
 Proof. vm_compute. reflexivity. Qed.
 Print Assumptions C10_source_shape.
+Lemma c10_cfg_is : c10_cfg = canonical_cfg.
+Proof. exact (cfg_canonical_eq c10_cfg C10_source_shape). Qed.
 
 Theorem C10_crash_no_double : forall tuples i once st k,
   NoDup (map t_name tuples) ->
@@ -63,33 +71,39 @@ Proof.
 Qed.
 Print Assumptions C10_published_after_all_writes.
 
-Theorem C10_init_crash_partial : forall st i members k,
+Theorem C10_init_crash_no_double : forall st i members k,
   no_double st ->
   functional (members_target members) ->
-  pinned (members_target members) st ->
+  (forall s a, has st s a = true -> In s (map fst members)) ->
   no_double (apply_writes st (firstn k (init_writes c10_cfg st i members))).
 Proof.
   intros st i members k H1 H2 H3.
-  exact (init_prefix_no_double_partial c10_cfg st i members k C10_source_shape H1 H2 H3).
+  exact (init_prefix_no_double c10_cfg st i members k C10_source_shape H1 H2 H3).
 Qed.
-Print Assumptions C10_init_crash_partial.
+Print Assumptions C10_init_crash_no_double.
 
-(** instance 7 recorded under server 2, the start-up cycle moved it to server 1, and server 1 comes first in
-    cell.members(): after [ensure 1; put 1/7] and before [delete 2/7] the instance is under both *)
-Theorem C10_init_crash_refuted : exists st i members k,
-  no_double st /\ NoDup (map fst members) /\ functional (members_target members) /\
-  ~ no_double (apply_writes st (firstn k (init_writes c10_cfg st i members))).
+(** regression + non-vacuity: the input that used to leave a double entry (instance 7 recorded under server 2, the
+    start-up cycle moved it to server 1, server 1 first in cell.members()) satisfies the hypotheses and is now free
+    of double entries at every cut: [ensure 1; ensure 2; delete 2/7; put 1/7; save] *)
+Definition rx_store : store := [(2, 7, mkPD None None (Some 100))].
+Definition rx_info : info := [(7, mkPD None None (Some 100))].
+Definition rx_members : list (Z * list Z) := [(1, [7]); (2, [])].
+Example C10_init_crash_regression :
+  no_double rx_store /\ functional (members_target rx_members) /\
+  (forall s a, has rx_store s a = true -> In s (map fst rx_members)) /\
+  flat_writes (init_writes c10_cfg rx_store rx_info rx_members) =
+    [5; 3; 1; 3; 2; 1; 2; 7; 2; 1; 7; -1; -1; 1; 100; 6] /\
+  doubles_at_cuts rx_store (init_writes c10_cfg rx_store rx_info rx_members) = [0; 0; 0; 0; 0; 0].
 Proof.
-  exists [(2, 7, mkPD None None (Some 100))], [(7, mkPD None None (Some 100))], [(1, [7]); (2, [])], 2%nat.
-  split; [apply no_doubleb_sound; vm_compute; reflexivity|].
-  split; [repeat constructor; cbn; intuition discriminate|].
-  split.
+  split; [apply no_doubleb_sound; vm_compute; reflexivity|]. split.
   - intros a s1 s2 [c1 [I1 Z1]] [c2 [I2 Z2]]. cbn in I1, I2.
     destruct I1 as [I1|[I1|[]]], I2 as [I2|[I2|[]]]; inversion I1; inversion I2; subst; try reflexivity;
       cbn in Z1, Z2; discriminate.
-  - intros H. specialize (H 7 1 2). vm_compute in H. specialize (H eq_refl eq_refl). discriminate.
+  - split.
+    + intros s a H. unfold rx_store, has in H. cbn [existsb] in H. rewrite orb_false_r in H.
+      apply key_is_true in H as [<- _]. cbn. auto.
+    + split; vm_compute; reflexivity.
 Qed.
-Print Assumptions C10_init_crash_refuted.
 
 (** the hypothesis of C10_crash_no_double cannot be dropped: the store still holds 1/7 while the model has
     un-placed 7 (Loader.remove_server); the next cycle places 7 on server 2 *)
@@ -108,47 +122,36 @@ Print Assumptions C10_stale_entry_refuted.
 (** Loader.check_placement_integrity *)
 Theorem C10_integrity_on_clean_store : forall wh placed pairs,
   NoDup (map snd pairs) ->
-  fst (integrity wh placed pairs) = [] /\
-  (snd (integrity wh placed pairs) = IOk <-> forall a s, In (a, s) placed -> In (s, a) pairs) /\
-  (snd (integrity wh placed pairs) = IOk \/ snd (integrity wh placed pairs) = IAssertFailed).
-Proof. intros wh placed pairs H. exact (integrity_nodup wh placed pairs H). Qed.
+  fst (integrity (cf_integ_update c10_cfg) wh placed pairs) = [] /\
+  (snd (integrity (cf_integ_update c10_cfg) wh placed pairs) = IOk <-> forall a s, In (a, s) placed -> In (s, a) pairs) /\
+  (snd (integrity (cf_integ_update c10_cfg) wh placed pairs) = IOk \/
+   snd (integrity (cf_integ_update c10_cfg) wh placed pairs) = IAssertFailed).
+Proof. intros wh placed pairs H. exact (integrity_nodup (cf_integ_update c10_cfg) wh placed pairs H). Qed.
 Print Assumptions C10_integrity_on_clean_store.
 
-Theorem C10_integrity_sound : forall wh placed pairs,
-  snd (integrity wh placed pairs) = IOk ->
-  forall a s, In (a, s) placed -> first_server pairs a = Some s.
-Proof. intros wh placed pairs H. exact (integrity_ok_sound wh placed pairs H). Qed.
-Print Assumptions C10_integrity_sound.
-
 Theorem C10_integrity_delete_only : forall wh placed pairs,
-  Forall (fun w => is_put w = false) (fst (integrity wh placed pairs)).
-Proof. intros wh placed pairs. exact (integrity_writes_delete_only wh placed pairs). Qed.
+  Forall (fun w => is_put w = false) (fst (integrity (cf_integ_update c10_cfg) wh placed pairs)).
+Proof. intros wh placed pairs. exact (integrity_writes_delete_only (cf_integ_update c10_cfg) wh placed pairs). Qed.
 Print Assumptions C10_integrity_delete_only.
 
-(** the stale app2server map, in general: if the first entry listed for an instance is not under the model's
-    server the check does not pass, whatever it repaired on the way *)
-Theorem C10_integrity_stale_map : forall wh placed pairs a s1 s2,
-  first_server pairs a = Some s1 -> In (a, s2) placed -> s1 <> s2 ->
-  snd (integrity wh placed pairs) <> IOk.
-Proof. intros wh placed pairs a s1 s2 H1 H2 H3. exact (integrity_stale_first wh placed pairs a s1 s2 H1 H2 H3). Qed.
-Print Assumptions C10_integrity_stale_map.
-
-(** ... and concretely: instance 7 under servers 1 and 2, the model has it on 2.  The check deletes 1/7, after
-    which the store is exactly the model, and then raises 'Placement integrity failed.' *)
-Theorem C10_integrity_refuted : exists st servers placed known,
-  let r := integrity (where_of placed known) placed (store_pairs st servers) in
-  let repaired := apply_writes st (fst r) in
-  snd r = IAssertFailed /\ no_double repaired /\
-  (forall a s, In (a, s) placed -> has repaired s a = true) /\
-  (forall e, In e repaired -> In (e_app e, e_server e) placed).
+(** repair, then pass *)
+Theorem C10_integrity_repair_then_pass : forall wh placed pairs,
+  (forall a s, In (a, s) placed -> wh a = Some (Some s) /\ In (s, a) pairs) ->
+  snd (integrity (cf_integ_update c10_cfg) wh placed pairs) <> IKeyError ->
+  snd (integrity (cf_integ_update c10_cfg) wh placed pairs) <> IAssertNeither ->
+  snd (integrity (cf_integ_update c10_cfg) wh placed pairs) = IOk.
 Proof.
-  exists [(1, 7, no_pdata); (2, 7, no_pdata)], [1; 2], [(7, 2)], [7].
-  cbn zeta. split; [vm_compute; reflexivity|]. split; [apply no_doubleb_sound; vm_compute; reflexivity|].
-  split.
-  - intros a s [H|[]]. inversion H; subst. vm_compute. reflexivity.
-  - vm_compute. intros e [<-|[]]. left. reflexivity.
+  rewrite c10_cfg_is. intros wh placed pairs H1 H2 H3. exact (integrity_repair_then_pass wh placed pairs H1 H2 H3).
 Qed.
-Print Assumptions C10_integrity_refuted.
+Print Assumptions C10_integrity_repair_then_pass.
+
+(** regression: instance 7 under servers 1 and 2, the model has it on 2 (the entry listed second).  The check deletes
+    1/7, after which the store is exactly the model, and -- this used to be 'Placement integrity failed.' -- passes *)
+Example C10_integrity_regression :
+  let st := [(1, 7, no_pdata); (2, 7, no_pdata)] in
+  let r := integrity (cf_integ_update c10_cfg) (where_of [(7, 2)] [7]) [(7, 2)] (store_pairs st [1; 2]) in
+  fst r = [WDel 1 7] /\ snd r = IOk /\ flat_store (apply_writes st (fst r)) = [1; 2; 7; -1; -1; -1].
+Proof. vm_compute. repeat split. Qed.
 
 (** Loader.restore_placements: after the duplicate pass no instance is left under two servers, and an instance
     restored under exactly one server keeps its node *)
